@@ -180,7 +180,7 @@ pub fn gen(seed: u64, tier: &str) -> Vec<String> {
         push(&mut lines, &meta, &t, &[s]);
     }
     // random files
-    let count = if thorough { 4000 } else { 110 };
+    let count = if thorough { 2500 } else { 110 };
     for _ in 0..count {
         let meta = match rng.below(4) {
             0 => None,
